@@ -119,7 +119,38 @@ func checkDateCore(y, m, d int) (site, msg string) {
 	} else if s, msg := verify("types.Date.UnmarshalJSON", j); s != "" {
 		return s, msg
 	}
+	// the application also handles the very instant at which this day starts as a Date in ANOTHER location (a controller's
+	// zone, UTC), where it falls on another calendar day: whatever that value encodes to, the date made here keeps its digits
+	v := types.ToDate(y, time.Month(m), d)
+	for _, foreign := range foreignLocations() {
+		f := types.Date(time.Time(v).In(foreign))
+		// (a few other dates first, so that this day is no longer among the most recently handled ones)
+		for k := 1; k <= 4; k++ {
+			o := types.Date(time.Date(2001+k, time.Month(k), 10+k, 0, 0, 0, 0, time.UTC))
+			o.MarshalUT0311L0x()
+			_ = o.String()
+			json.Marshal(o)
+		}
+		if p := try(func() { f.MarshalUT0311L0x(); _ = f.String(); json.Marshal(f) }); p != nil {
+			continue // (a Date wrapping a time in another location is the application's own construction: not judged)
+		}
+		if s, msg := verify("types.ToDate", v); s != "" {
+			return s + "/after-same-instant-in-other-location", msg + fmt.Sprintf(" (right after a Date wrapping the same instant in %v had been encoded)", foreign)
+		}
+		if s, msg := verify("types.Date.UnmarshalUT0311L0x", *out.(*types.Date)); s != "" {
+			return s + "/after-same-instant-in-other-location", msg + fmt.Sprintf(" (right after a Date wrapping the same instant in %v had been encoded)", foreign)
+		}
+	}
 	return "", ""
+}
+
+var foreignLocs []*time.Location
+
+func foreignLocations() []*time.Location {
+	if foreignLocs == nil {
+		foreignLocs = []*time.Location{time.UTC, time.FixedZone("", 14*3600), time.FixedZone("X", -12*3600), zones.Loc("Asia/Tokyo"), zones.Loc("America/New_York")}
+	}
+	return foreignLocs
 }
 
 var apiCounter int
@@ -224,6 +255,26 @@ func checkDateTimeCore(c dCase) (site, msg string) {
 	}
 	if s := p.String(); s != text {
 		return "types.DateTime.String", fmt.Sprintf("date-time %s prints as %q", text, s)
+	}
+	// decoded into a variable that was used before and holds a value in ANOTHER location (the application had converted an
+	// earlier reading with .In(zone of the controller)): what the controller sends is read in the process zone all the same
+	usedIn := foreignLocations()
+	if c.DevTZ != "" {
+		usedIn = append([]*time.Location{zones.Loc(c.DevTZ)}, usedIn[0])
+	}
+	for _, foreign := range usedIn {
+		used := types.DateTime(time.Date(2020, 6, 1, 12, 0, 0, 0, foreign))
+		out, err := used.UnmarshalUT0311L0x(append(wire, 0, 0))
+		p2, ok := out.(*types.DateTime)
+		if err != nil || !ok || p2 == nil {
+			return "types.DateTime.UnmarshalUT0311L0x/used-variable/error", fmt.Sprintf("decoding %x into a variable that held a date-time in %v: %v %T", wire, foreign, err, out)
+		}
+		if got := api.DateTimeText(*p2); got != text {
+			return "types.DateTime.UnmarshalUT0311L0x/used-variable/wrong-fields", fmt.Sprintf("date-time %s decoded as %s into a variable that held a date-time in %v", text, got, foreign)
+		}
+		if !time.Time(*p2).Equal(time.Time(*p)) {
+			return "types.DateTime.UnmarshalUT0311L0x/used-variable/wrong-instant", fmt.Sprintf("date-time %s decoded to the instant %v into a variable that held a date-time in %v, to %v into a fresh one", text, time.Time(*p2).UTC(), foreign, time.Time(*p).UTC())
+		}
 	}
 	// through the API: GetTime, GetEvent and the status (event timestamp + system date/time)
 	cfg := apiCfg()
